@@ -2,7 +2,7 @@
    (on every stream that contains a draw hitting a usable channel -- and a usable channel always exists; see C09_*_refuted for the
    literal "every random stream", which the rejection loops do not satisfy: recorded known finding). *)
 From Coq Require Import NArith ZArith List Bool.
-From LoraV Require Import Base.Bytes Gen.RegionTables Model.Region Model.Mac Proofs.OtaaProofs Proofs.TxProofs Proofs.NoPanicProofs Model.Frame Model.NbDev Proofs.TxHistory.
+From LoraV Require Import Base.Bytes Gen.RegionTables Model.Region Model.Mac Proofs.OtaaProofs Proofs.TxProofs Proofs.NoPanicProofs Model.Frame Model.NbDev Proofs.TxHistory Model.AsyncDev Proofs.AsyncTxHistory.
 Import ListNotations.
 Local Open Scope nat_scope.
 
@@ -121,5 +121,22 @@ Section C09_hist.
     pose proof (nb_every_transmission_legal enc mac_fn enc_len mac_len evs NIdle (mac_new r p g) {| n_calls := 0; n_fault := fault; n_trace := [] |}
                   (mac_new_ok r p g Hr) (Forall_nil _)) as H.
     destruct (nb_run _ _ _ _ _ _) as [[st' m'] e']. exact (proj1 H).
+  Qed.
+
+  (* async_device: after ANY sequence of join / send / rxc_listen calls, against any radio script (timeouts, errors, any received bytes,
+     pending receptions), a fault at any radio call, whatever each call returned: every frame handed to the radio was legal for the device *)
+  Theorem C09_async_every_transmission_legal : forall dv ops d e, G dv d e ->
+    let '(d', e') := arun enc mac_fn d e ops in G dv d' e'.
+  Proof. exact (async_every_transmission_legal enc mac_fn enc_len). Qed.
+
+  Theorem C09_async_fresh_device : forall r p g classc lead script fault ops, (r < 9)%N ->
+    let '(d', e') := arun enc mac_fn {| ad_mac := mac_new r p g; ad_classc := classc; ad_lead := lead |}
+                          {| e_script := script; e_calls := 0; e_fault := fault; e_trace := [] |} ops in
+    Forall (acall_ok (r, p)) (e_trace e').
+  Proof.
+    intros r p g classc lead script fault ops Hr.
+    pose proof (async_every_transmission_legal enc mac_fn enc_len (r, p) ops {| ad_mac := mac_new r p g; ad_classc := classc; ad_lead := lead |}
+                  {| e_script := script; e_calls := 0; e_fault := fault; e_trace := [] |}) as H.
+    destruct (arun _ _ _ _ _) as [d' e']. apply H. split; [exact (mac_new_ok r p g Hr)|]. split; [reflexivity|constructor].
   Qed.
 End C09_hist.
